@@ -53,6 +53,22 @@ fn c14_urldecode_one_free_back() {
     hu::c14_urldecode_one_free(false);
 }
 
+macro_rules! tail {
+    ($name:ident, $t:literal) => {
+        #[kani::proof]
+        #[kani::unwind(26)]
+        #[kani::stub(std::backtrace::Backtrace::capture, crate::backtrace_stub)]
+        #[kani::stub(alloc::fmt::format, crate::format_stub)]
+        fn $name() {
+            hu::c14_urldecode_tail::<$t>();
+        }
+    };
+}
+tail!(c14_urldecode_tail_1, 1);
+tail!(c14_urldecode_tail_2, 2);
+tail!(c14_urldecode_tail_3, 3);
+tail!(c14_urldecode_tail_4, 4);
+
 const MAXCOUNT: usize = 100_000;
 
 fn any_count() -> usize {
